@@ -347,7 +347,7 @@ func c12RunTable(c c12TableCase) (string, int) {
 var c12Budget = core.Budget{MaxSteps: 400000, MaxDepth: 200, MaxLen: 1 << 14, MaxOut: 1 << 20}
 
 func runC12(r *core.Run) {
-	r.SetRule("script level: generated struct types (0-200 fields over 9 field types, up to 50 methods, optional self-reference and alias type), three instances plus aliases, 10-40 random field stores (constants, nil), type-revealing compound updates, reads and method calls through every reference, then a dump of every field of every instance; 0-700 junk names interned first to move the field/method/type indexes; a receiver-guarding method and a later-declared second type are called on nil references; package level: struct types with methods declared in packages whose import path differs from the package name (nested paths, two packages of the same name), used from main through constructors, literals, fields and methods. table level: random Set/Assign/Get/Delete/Copy histories in fill/drain/churn phases with keys drawn from clustered residues, the structure checked after every operation. non-trivial = script case accepted by Go with >= 3 lines, table history with >= 10 operations; distinct by text / history")
+	r.SetRule("script level: generated struct types (0-200 fields over 9 field types, up to 50 methods, optional self-reference and alias type), three instances plus aliases, 10-40 random field stores (constants, nil), type-revealing compound updates, reads and method calls through every reference, then a dump of every field of every instance; 0-700 junk names interned first to move the field/method/type indexes; a receiver-guarding method and a later-declared second type are called on nil references; package level: struct types with methods declared in packages whose import path differs from the package name (nested paths, two packages of the same name), used from main through constructors, literals, fields and methods, next to a local named like the import whose fields collide with package members; host level: instances made with NewStruct (with and without initial data) and by scripts, fields through SetAttr/GetAttr, methods fetched by name and called through Func, an instance made through an alias type. table level: random Set/Assign/Get/Delete/Copy histories in fill/drain/churn phases with keys drawn from clustered residues, the structure checked after every operation. non-trivial = script case accepted by Go with >= 3 lines, table history with >= 10 operations; distinct by text / history")
 	r.Assume("Go toolchain (GOARCH=386) for the script level; map[int]Value plus the robin-hood invariants (displacement equals stored distance, no gap before a displaced entry, distances grow by at most one, no duplicate key, total equals occupancy and stays within the load limit, power-of-two size >= 16) for the table level")
 	n := r.N(300, 12000)
 	cases := make([]packedCase, n)
@@ -400,6 +400,15 @@ func runC12(r *core.Run) {
 		}
 	}
 	c12RunPkgCases(r)
+	for i := 0; i < r.N(300, 6000); i++ {
+		r.Eval(1)
+		if what := c12Host(r.Seed, i); what != "" {
+			r.Violate(core.Violation{Check: "c12-host", Index: i, What: "host-side instances: " + what, Case: map[string]any{"seed": r.Seed, "index": i}})
+		} else {
+			r.DistinctN(1)
+			r.Count("host_api_cases", 1)
+		}
+	}
 	nt := r.N(6000, 400000)
 	core.Parallel((nt+199)/200, func(chunk int) {
 		for i := chunk * 200; i < (chunk+1)*200 && i < nt; i++ {
@@ -443,6 +452,7 @@ func c12PkgCase(seed int64, idx int) core.RefCase {
 		fmt.Fprintf(&sb, "func New(x int) *P {\n\treturn &P{X: x, Y: x * %d, Tag: \"%s\"}\n}\n\n", k+1, tag)
 		fmt.Fprintf(&sb, "type Q struct {\n\tP *P\n\tN int\n}\n\n")
 		fmt.Fprintf(&sb, "func (q *Q) Sum() int {\n\treturn q.P.X + q.N + %d\n}\n\n", k)
+		fmt.Fprintf(&sb, "var K = %d\nvar Tag = \"%s-pkg\"\n\n", k*100, tag)
 		return sb.String()
 	}
 	files := map[string]string{root + "/" + p1 + "/" + name + ".go": lib("g1", rng.Range(1, 5))}
@@ -462,12 +472,15 @@ func c12PkgCase(seed int64, idx int) core.RefCase {
 	sb.WriteString(")\n\n")
 	fmt.Fprintf(&sb, "type L struct {\n\tG *%s.P\n\tK int\n}\n\n", a1)
 	fmt.Fprintf(&sb, "func (l *L) Show() string {\n\treturn l.G.Show() + fmt.Sprint(l.K)\n}\n\n")
+	// a local named like the import: stores through it are stores to the local's fields, also where the package has members of those names
+	fmt.Fprintf(&sb, "type Sh struct {\n\tK int\n\tTag string\n}\n\nfunc shadow(n int) string {\n\t%s := &Sh{K: 1, Tag: \"local\"}\n\talias := %s\n\t%s.K = n\n\t%s.K++\n\t%s.K += 10\n\t%s.Tag = \"changed\"\n\treturn fmt.Sprint(%s.K, alias.K) + %s.Tag + alias.Tag\n}\n\n", a1, a1, a1, a1, a1, a1, a1, a1)
 	sb.WriteString("func main() {\n")
 	x, d := rng.Intn(20), rng.Intn(9)
 	fmt.Fprintf(&sb, "\ta := %s.New(%d)\n\tb := &%s.P{X: %d}\n\ta.Move(%d)\n\tb.Move(%d)\n\tb.Tag = \"lit\"\n", a1, x, a1, d, d, x)
 	fmt.Fprintf(&sb, "\tq := &%s.Q{P: a, N: %d}\n\tl := &L{G: b, K: %d}\n\tvar z *%s.P\n", a1, d, x, a1)
 	sb.WriteString("\tfmt.Println(a.Show(), b.Show(), q.Sum(), l.Show(), z.Show(), q.P.Show())\n")
 	sb.WriteString("\tf := a.Show\n\ta.Move(1)\n\tfmt.Println(f(), a.X, b.Y)\n")
+	fmt.Fprintf(&sb, "\tfmt.Println(shadow(%d), %s.K, %s.Tag)\n", x, a1, a1)
 	if two {
 		fmt.Fprintf(&sb, "\tc := %s.New(%d)\n\tc.Move(2)\n\tq2 := &%s.Q{P: c, N: 1}\n\tvar z2 *%s.P\n", a2, x+1, a2, a2)
 		sb.WriteString("\tfmt.Println(c.Show(), q2.Sum(), z2.Show(), a.Show())\n")
@@ -504,6 +517,100 @@ func c12RunPkgCases(r *core.Run) {
 		r.Distinct(treeKey(cases[i].Files))
 		r.Count("package_level_cases", 1)
 	})
+}
+
+// c12Host: instances built and used through the host API (NewStruct, GetAttr, SetAttr, methods fetched by name)
+// are instances like any other: own fields, zero values, methods found and bound.
+func c12Host(seed int64, idx int) string {
+	rng := core.Derive(seed, "c12-host", idx)
+	m := core.NewMachine(core.VMOpts{Optimize: rng.Bool(), Obs: core.NewObs(core.SmallBudget, false, nil)})
+	if o := m.Eval(nil, `type T struct { X int; Y int; S string; L []int }
+type D = T
+func (t *T) Add(n int) int { t.X += n; return t.X }
+func (t *T) Name() string { return "<" + t.S + ">" }
+func mk() *T { return &T{} }
+func mkD() *D { return &D{} }
+func mkY(y int) *T { return &T{Y: y} }
+func sum(t *T) int { return t.X*100 + t.Y }`); o.Failed() {
+		return "set-up failed: " + o.Err + o.Panic
+	}
+	var what string
+	if p := core.Guard(func() {
+		I, S := goatlang.Int, goatlang.String
+		base := m.VM.Get("main.T")
+		x, y, n := rng.Intn(50)+1, rng.Intn(50)+1, rng.Intn(9)+1
+		a := goatlang.NewStruct(base, nil)
+		b := goatlang.NewStruct(base, nil)
+		c := goatlang.NewStruct(base, []goatlang.Value{S("X"), I(3), S("S"), S("c")})
+		order := rng.Intn(3)
+		if order == 0 {
+			a.SetAttr("X", I(x))
+			a.SetAttr("S", S("a"))
+		}
+		b.SetAttr("Y", I(y))
+		if order != 0 {
+			a.SetAttr("X", I(x))
+			a.SetAttr("S", S("a"))
+		}
+		str := func(v goatlang.Value) string { return v.String() }
+		expect := func(label, got, want string) {
+			if what == "" && got != want {
+				what = fmt.Sprintf("%s = %s, want %s", label, got, want)
+			}
+		}
+		expect("a.X", str(a.GetAttr("X")), fmt.Sprint(x))
+		expect("a.Y (never stored)", str(a.GetAttr("Y")), "0")
+		expect("b.X (stored on another instance only)", str(b.GetAttr("X")), "0")
+		expect("b.Y", str(b.GetAttr("Y")), fmt.Sprint(y))
+		expect("b.S", str(b.GetAttr("S")), "")
+		expect("c.X", str(c.GetAttr("X")), "3")
+		expect("c", str(c), "&{X:3 Y:0 S:c L:[]}")
+		d := m.Call("main.mk", 1)
+		expect("a script-made instance created after host-side stores", fmt.Sprint(d.Rets), "[&{X:0 Y:0 S: L:[]}]")
+		e := goatlang.NewStruct(base, nil)
+		expect("a host-made instance created after host-side stores", str(e), "&{X:0 Y:0 S: L:[]}")
+		// methods fetched by name, on host-made and script-made instances
+		add := a.GetAttr("Add")
+		if add.IsNil() {
+			what = "GetAttr(\"Add\") on a host-made instance is nil"
+			return
+		}
+		r1 := m.Func(add, 1, I(n))
+		expect("calling a.Add fetched by name", fmt.Sprintf("%v|%s", r1.Rets, r1.Err), fmt.Sprintf("[%d]|", x+n))
+		expect("a.X after a.Add", str(a.GetAttr("X")), fmt.Sprint(x+n))
+		expect("b.X after a.Add", str(b.GetAttr("X")), "0")
+		r2 := m.Call("main.sum", 1, a)
+		expect("sum(a) in the script", fmt.Sprintf("%v|%s", r2.Rets, r2.Err), fmt.Sprintf("[%d]|", (x+n)*100))
+		var inst goatlang.Value
+		rets, err := m.VM.Call("main.mkY", 1, I(y))
+		if err != nil || len(rets) != 1 {
+			what = fmt.Sprint("mkY failed: ", err)
+			return
+		}
+		inst = rets[0]
+		nm := inst.GetAttr("Name")
+		if nm.IsNil() {
+			what = "GetAttr(\"Name\") on a script-made instance is nil"
+			return
+		}
+		inst.SetAttr("S", S("q"))
+		r3 := m.Func(nm, 1)
+		expect("calling inst.Name fetched by name", fmt.Sprintf("%v|%s", r3.Rets, r3.Err), "[<q>]|")
+		r4 := m.Func(inst.GetAttr("Add"), 1, I(2))
+		expect("calling inst.Add fetched by name", fmt.Sprintf("%v|%s", r4.Rets, r4.Err), "[2]|")
+		expect("inst", str(inst), fmt.Sprintf("&{X:2 Y:%d S:q L:[]}", y))
+		// an instance of a type defined from T
+		// an instance of the alias type, made by a script, is an instance of T
+		if rets, err := m.VM.Call("main.mkD", 1); err == nil && len(rets) == 1 {
+			r5 := m.Func(rets[0].GetAttr("Add"), 1, I(1))
+			expect("method of T fetched by name on an instance made through the alias type", fmt.Sprintf("%v|%s", r5.Rets, r5.Err), "[1]|")
+		} else {
+			what = fmt.Sprint("mkD failed: ", err)
+		}
+	}); p != "" {
+		return "a Go panic escaped the host API: " + p
+	}
+	return what
 }
 
 func replayC12(r *core.Run, v *core.Violation) {
